@@ -42,7 +42,7 @@ func init() {
 			".ReplaceBundle", ".NotifyNewBundle", ".dispatching"}))
 		x.Bool("persistRemoval", CallIndex(x.Calls(rcv), ".ReplaceBundle") >= 0 &&
 			CallIndex(x.Calls(rcv), ".ReplaceBundle") < CallIndex(x.Calls(rcv), ".dispatching"))
-		x.StrList("receiveFlagLines", c06Grep(x.Skeleton(rcv), []string{"BlockControlFlags.Has", "IsKnown", "for i :="}))
+		x.StrList("receiveFlagLines", c06Grep(x.Skeleton(rcv), []string{"BlockControlFlags.Has", "IsKnown", "for i :=", "blockRemoved"}))
 
 		// retries start from the stored bundle: checkPendingBundles builds the descriptor from the id only
 		cpb, err := x.Func(rt, "Core", "checkPendingBundles")
